@@ -63,7 +63,7 @@ pub fn run(ctx: &Ctx) {
     // (a) single documents
     let mut all_distinct: HashSet<u64> = HashSet::new();
     let mut total_evals = 0u64;
-    for cfg in [plain_cfg(ctx.tier.pick(5, 7)), wide_cfg(ctx.tier.pick(4, 5)), deep_cfg(ctx.tier.pick(6, 8)), history_cfg(ctx.tier.pick(4, 5)), entity_cfg(ctx.tier.pick(4, 5))] {
+    for cfg in [plain_cfg(ctx.tier.pick(5, 7)), wide_cfg(ctx.tier.pick(4, 5)), deep_cfg(ctx.tier.pick(6, 8)), history_cfg(ctx.tier.pick(4, 5)), entity_cfg(ctx.tier.pick(4, 5)), chardata_cfg(ctx.tier.pick(5, 6))] {
     let describe = cfg.describe();
     let sp = Space::new(cfg);
     let res = par_for(
@@ -162,7 +162,7 @@ pub fn run(ctx: &Ctx) {
     ctx.set("evaluations", json!(total_evals));
     ctx.set("distinct_nontrivial", json!(all_distinct.len()));
     // (b) histories
-    let searches: Vec<(usize, usize)> = ctx.tier.pick(vec![(2, 4), (3, 1)], vec![(2, 8), (3, 3)]);
+    let searches: Vec<(usize, usize)> = ctx.tier.pick(vec![(2, 4), (3, 1)], vec![(2, 6), (3, 2)]);
     for (aw, depth) in searches {
         let alphabet = materialise(history_cfg(aw));
         let mut events: Vec<Event> = alphabet.iter().cloned().map(Event::doc).collect();
@@ -182,7 +182,7 @@ pub fn run(ctx: &Ctx) {
             init_docs: &alphabet,
             events: &events,
             depth,
-            state_cap: ctx.tier.pick(400_000, 3_000_000),
+            state_cap: ctx.tier.pick(400_000, 1_500_000),
             audit_cap: ctx.tier.pick(2_000, 20_000),
             judge_init: &judge_i,
             judge: &judge_t,
